@@ -81,7 +81,7 @@ static CO_ERR COTPdoMapWrite(struct CO_OBJ_T *obj, struct CO_NODE_T *node, void 
     cod     = &node->Dict;
     pmapidx = CO_GET_IDX(obj->Key);
     pcomidx = pmapidx - 0x200;
-    map     = *(uint32_t*)buffer;
+    CO_BUF_GET(map, buffer);
 
     /* check that PDO is inactive */
     (void)CODictRdLong(cod, CO_DEV(pcomidx, 1), &id);
